@@ -34,8 +34,8 @@ fn worker(id: int, l: [int]) { for i in 0..20 { println("w", id, i, l.len()); l.
 fn main() { let shared: [int] = [1, 2, 3]; spawn worker(1, shared); spawn worker(2, shared);
   for i in 0..20 { shared.push(i); println("m", i); } }
 '''
-# witness of the open finding V32: a global list mutated in place from several cores
-V32_SRC = '''let items: [int] = [];
+# witness of the open finding H3: a global list mutated in place from several cores
+H3_SRC = '''let items: [int] = [];
 fn worker(id: int) { for i in 0..30 { items.push(id); } }
 fn main() { spawn worker(1); spawn worker(2); for i in 0..30 { items.push(0); } }
 '''
@@ -206,7 +206,7 @@ def run(ctx):
     ctx.assumptions += [
         "freedom from data races in Go's memory model is sampled (race detector, GOMAXPROCS 1/2/4/8, injected yields), "
         "not proved; the theorems cover the locking/signalling protocol of the model under all interleavings",
-        "cores share scalar globals only; a global list or object mutated in place from several cores races (open finding V32)",
+        "cores share scalar globals only; a global list or object mutated in place from several cores races (open finding H3)",
         "lost updates of `g = g + 1` from several cores are a race condition of the program, not a data race: counted, not judged",
     ]
     if not st["harness"] or not st["dump"]:
